@@ -296,3 +296,7 @@ def run(cx: Cx):
     if okw and nw:
         cx.ok('R-ITER', 'write_records: open(filename, filemode), one write per held record in list order, close', where=cx.where(wr),
               function=wr.qualname)
+    from .common import include_premises
+    include_premises(cx, ['C01', 'C05', 'C02'], 'one record per scheduled timestep, after that timestep\'s systems: the scheduler runs each queued system once, in priority order, in its window')
+
+
